@@ -271,6 +271,9 @@ class RefApp:
             t.ta = a[0]
         elif verb == "FAKE_TOA" and n == 2:
             t.toa = (a[0], a[1])
+            t.undefined.discard("toa")
+            if a[1] < 0:
+                t.undefined.add("toa")      # a negative randomisation threshold is outside the documented domain
         elif verb == "FAKE_TOA" and n == 1:
             t.toa = (t.toa[0] + a[0], t.toa[1])
         elif verb == "FAKE_RSSI" and n == 2:
@@ -285,6 +288,9 @@ class RefApp:
                 t.rssi = (t.rssi_base, t.rssi[1])
         elif verb == "FAKE_CI" and n == 2:
             t.ci = (a[0], a[1])
+            t.undefined.discard("ci")
+            if a[1] < 0:
+                t.undefined.add("ci")
         elif verb == "FAKE_CI" and n == 1:
             t.ci = (t.ci[0] + a[0], t.ci[1])
         elif verb == "FAKE_DROP" and n == 1:
@@ -417,7 +423,7 @@ class RefApp:
             if "fh" in r.undefined:
                 return None
             rxf = r.freq(m["fn"], 0)
-            if rxf is None:
+            if rxf is None or (r.undefined & {"toa", "ci"}):
                 out.append(Exp(r.d.data + 100, r.d.addr, [(lambda p: True, None), (None, None)],
                                "anything or nothing to untuned %s" % r.d.name))
                 continue
